@@ -100,6 +100,8 @@ def translate(row, sid, cfg=None):
             out.append(f"hStart {r['i']}")
         elif k == 'unscheduledStart':
             out.append(f"unscheduledStart {r['i']}")
+        elif k == 'hCancel':
+            out.append(f"hCancel {r['i']}")
         elif k == 'hEnd':
             out.append(f"hEnd {r['i']} {r['out']}")
         elif k == 'resFinish':
